@@ -1530,6 +1530,49 @@ pub fn shape_of(q: &Query) -> String {
     q.parts.iter().map(part).collect::<Vec<_>>().join(if q.all { " UNIONALL " } else { " UNION " })
 }
 
+// ---------------------------------------------------------------- cost guard
+/// A crude upper estimate of the number of intermediate rows the brute-force reference evaluator
+/// builds for `q` on `g`; cases above the budget are not generated (the model is evaluated by
+/// coqc's vm and must stay affordable).
+pub fn cost_estimate(g: &Graph, q: &Query) -> f64 {
+    let n = g.nodes.len().max(1) as f64;
+    let m = g.rels.len() as f64;
+    let mut worst: f64 = 1.0;
+    for s in &q.parts {
+        let mut rows: f64 = 1.0;
+        for c in &s.clauses {
+            match c {
+                Clause::Match { pats, .. } => {
+                    for p in pats {
+                        let mut f = if p.start.var.is_some() && rows > 1.0 { n.min(2.0) } else { n };
+                        for (r, _) in &p.segs {
+                            let deg = (if r.dir == 2 { 2.0 * m } else { m } / n).max(1.0);
+                            let hops = match r.len {
+                                None => 1.0,
+                                Some((lo, None)) => (m.max(lo as f64)).min(6.0),
+                                Some((_, Some(h))) => h as f64,
+                            };
+                            f *= deg.powf(hops) * if r.len.is_some() { hops.max(1.0) } else { 1.0 };
+                        }
+                        rows *= f;
+                    }
+                }
+                Clause::Unwind(_, _) => rows *= 3.0,
+                Clause::With(p, _) => {
+                    if p.items.iter().all(|(i, _)| matches!(i, Item::Agg(..))) {
+                        rows = 1.0;
+                    }
+                    if let Some(k) = p.limit {
+                        rows = rows.min(k as f64);
+                    }
+                }
+            }
+            worst = worst.max(rows);
+        }
+    }
+    worst
+}
+
 // ---------------------------------------------------------------- direct predicates on the implementation
 /// Properties of the answer that can be read off the engine's rows without a reference evaluator:
 /// a node returned for a pattern variable carries all the labels the pattern lists; LIMIT k returns
